@@ -43,6 +43,8 @@ theorem exec_bind_err {x : M α} {f : α → M β} {s s' : St} {e : Err} (h : x.
 @[simp] theorem exec_liftR_ok (a : α) (s : St) : (liftR (.ok a) : M α).exec s = (.ok a, s) := rfl
 @[simp] theorem exec_liftR_err (e : Err) (s : St) : (liftR (.error e) : M α).exec s = (.error e, s) := rfl
 
+@[simp] theorem exec_liftR_pure (a : α) (s : St) : (liftR (pure a : R α) : M α).exec s = (.ok a, s) := rfl
+
 theorem exec_liftR (r : R α) (s : St) :
     (liftR r : M α).exec s = (match r with | .ok a => (.ok a, s) | .error e => (.error e, s)) := by
   cases r <;> rfl
